@@ -56,6 +56,7 @@ func c17Check(c *Case) []Violation {
 		return []Violation{viol(c, "C17/rejected", "fatigue failed: %v", t.err)}
 	}
 	var vs []Violation
+	vs = append(vs, alteredReport(c, "C17", "fatigue", t, bs)...)
 	prev, next := t.prev, t.next
 	f := asF(t.props["effectiveFatigueRatio"])
 	if !near(f, fatigueRatioRef(props)) {
@@ -178,10 +179,11 @@ func c17Run(s *Shard) {
 	for _, b := range biasAlphabet(0) {
 		prefixes = append(prefixes, []M{b})
 	}
+	prefixes = append(prefixes, ownPrefixes(bias("fatigue", M{"function": "const", "params": M{"value": 0.5}, "randomSeed": 8}))...)
 	sampled := false
 	for _, method := range allMethods {
 		for _, subset := range []bool{false, true} {
-			for _, variant := range []int{0, 1, 2, 3} { // 0 observed range, 1 declared range, 2 negative values, 3 one criterion with a single value
+			for _, variant := range []int{0, 1, 2, 3, 4} { // 0 observed range, 1 declared range, 2 negative values, 3 one criterion with a single value, 4 never-considered alternatives beyond both ends
 				root := rootRequest(method, subset, variant == 1)
 				if variant == 2 {
 					root = negativeVariant(root) // c1 strictly negative for every known alternative
@@ -194,6 +196,9 @@ func c17Run(s *Shard) {
 					for _, a := range asL(root["knownAlternatives"]) {
 						asM(asM(a)["criteria"])["c3"] = 2.0
 					}
+				}
+				if variant == 4 {
+					root = wideVariant(root)
 				}
 				for pi, pre := range prefixes {
 					if variant >= 2 && pi > 0 {
